@@ -256,11 +256,9 @@ impl Lexer {
             self.consume_char();
         }
 
-        // If we run out of characters, we have an un-closed string
-        Err(StringLexError::new(
-            self.get_pos(),
-            StringLexErrorType::Unclosed,
-        ))
+        // If we run out of characters, we have an un-closed string: it ends
+        // with the last character of the input
+        Err(StringLexError::new(last, StringLexErrorType::Unclosed))
     }
 
     /// Create the error for an invalid string.
@@ -336,12 +334,10 @@ impl Iterator for Lexer {
 
                 while let Some(current) = self.current() {
                     dir_str.push(current);
-                    if let Some(next) = self.peek(1) {
-                        if !Self::is_symbol_char(next) {
-                            break;
-                        }
+                    match self.peek(1) {
+                        Some(next) if Self::is_symbol_char(next) => self.consume_char(),
+                        _ => break,
                     }
-                    self.consume_char();
                 }
 
                 let end = self.get_pos();
@@ -429,6 +425,8 @@ impl Iterator for Lexer {
             }
             Some('\'') => {
                 let start = self.get_pos();
+                // The last character of the literal that was seen
+                let mut seen = start;
                 self.consume_char();
 
                 if let Some(c) = self.current() {
@@ -463,6 +461,7 @@ impl Iterator for Lexer {
 
                     // Ensure that the next character is the closing quote
                     let last = self.get_pos();
+                    seen = last;
                     self.consume_char();
                     if let Some(eq) = self.current() {
                         // Return the character
@@ -489,12 +488,11 @@ impl Iterator for Lexer {
                     }
                 }
 
-                let end = self.get_pos();
                 return Some(self.invalid_string(
                     String::new(), // Empty string, since we are at EOF
                     StringLexErrorType::Unclosed,
                     start,
-                    end,
+                    seen,
                 ));
             }
             _ => {
@@ -520,12 +518,10 @@ impl Iterator for Lexer {
 
                 while let Some(current) = self.current() {
                     symbol_str.push(current);
-                    if let Some(next) = self.peek(1) {
-                        if !Self::is_symbol_item(next) {
-                            break;
-                        }
+                    match self.peek(1) {
+                        Some(next) if Self::is_symbol_item(next) => self.consume_char(),
+                        _ => break,
                     }
-                    self.consume_char();
                 }
 
                 // If the next char is ':', this is a label
